@@ -871,6 +871,20 @@ func c06Funnel(c *Ctx, r *Report, an *Anchors) {
 			bad = append(bad, "the writer argument is not the caller's own writer parameter ("+describeArg(call.Call.Args[wIdx])+")")
 		}
 		ra := peel(call.Call.Args[rIdx])
+		if ld, ok := ra.(*ssa.UnOp); ok && ld.Op == token.MUL {
+			// a local variable holding exactly one value (captured by a deferred closure)
+			if al, ok := ld.X.(*ssa.Alloc); ok {
+				var vals []ssa.Value
+				for _, r2 := range referrers(al) {
+					if st, ok := r2.(*ssa.Store); ok && st.Addr == ssa.Value(al) {
+						vals = append(vals, st.Val)
+					}
+				}
+				if len(vals) == 1 {
+					ra = peel(vals[0])
+				}
+			}
+		}
 		okReader := false
 		switch x := ra.(type) {
 		case *ssa.Parameter:
@@ -1563,6 +1577,11 @@ func gzipReaderRule(c *Ctx, r *Report, sf *ssa.Function, rule string) {
 						if _, _, ok := nilCompare(x); !ok {
 							bad = append(bad, "used in "+x.String())
 						}
+					case *ssa.Store:
+						if _, isLocal := x.Addr.(*ssa.Alloc); isLocal && x.Val == v {
+							continue // kept in a local variable: its loads are aliases, visited too
+						}
+						bad = append(bad, "stored at "+c.InstrPos(use))
 					case ssa.CallInstruction:
 						cc := x.Common()
 						k := calleeKey(cc)
@@ -1575,7 +1594,9 @@ func gzipReaderRule(c *Ctx, r *Report, sf *ssa.Function, rule string) {
 					}
 				}
 			}
-			visit(rd, 0)
+			for _, al := range aliasesOf(rd) {
+				visit(al, 0)
+			}
 			sort.Strings(bad)
 			r.Check(len(bad) == 0, rule, caller.Name()+":gzip-reader-uses", c.InstrPos(gz),
 				fmt.Sprintf("the gzip reader is only handed to the scan loop and closed (%d uses): every member of the archive is streamed, as the plain file would be", n),
@@ -1606,4 +1627,50 @@ func crossLineStateRule(c *Ctx, r *Report, fns map[*ssa.Function]bool, rule, con
 	if n == 0 {
 		r.OK(rule, "no-cross-line-state", "-", fmt.Sprintf("%d package-level variables are touched, none is both written and read", len(gs)))
 	}
+}
+
+// aliasesOf: v itself plus every load of a local variable (also one captured by a nested
+// closure) that holds exactly v - the forms one value takes when the source spells it
+// through a variable that a deferred closure captures.
+func aliasesOf(v ssa.Value) []ssa.Value {
+	out := []ssa.Value{v}
+	for _, use := range referrers(v) {
+		st, ok := use.(*ssa.Store)
+		if !ok || st.Val != v {
+			continue
+		}
+		al, ok := st.Addr.(*ssa.Alloc)
+		if !ok {
+			continue
+		}
+		single := true
+		for _, r2 := range referrers(al) {
+			if s2, ok := r2.(*ssa.Store); ok && s2.Addr == ssa.Value(al) && s2.Val != v {
+				single = false
+			}
+		}
+		if !single {
+			continue
+		}
+		for _, r2 := range referrers(al) {
+			switch x := r2.(type) {
+			case *ssa.UnOp:
+				if x.Op == token.MUL {
+					out = append(out, x)
+				}
+			case *ssa.MakeClosure:
+				fn, _ := x.Fn.(*ssa.Function)
+				for bi, b := range x.Bindings {
+					if b == ssa.Value(al) && fn != nil && bi < len(fn.FreeVars) {
+						for _, r3 := range referrers(fn.FreeVars[bi]) {
+							if ld, ok := r3.(*ssa.UnOp); ok && ld.Op == token.MUL {
+								out = append(out, ld)
+							}
+						}
+					}
+				}
+			}
+		}
+	}
+	return out
 }
